@@ -66,7 +66,8 @@ type ConstFact struct {
 	Int      int64  `json:"int"`
 	Exported bool   `json:"exported"`
 	Comment  string `json:"comment"` // trailing line comment of the ValueSpec, trimmed
-	SpecIndex int   `json:"specIndex"` // index of this name inside its ValueSpec (`A, B T = 1, 2`: B has 1)
+	SpecIndex int   `json:"specIndex"`
+	Str      string `json:"str"` // string value of a string constant // index of this name inside its ValueSpec (`A, B T = 1, 2`: B has 1)
 }
 
 type AliasFact struct {
@@ -291,6 +292,9 @@ func (w *walker) pkg(p *packages.Package, seen map[string]bool) {
 			}
 			if o.Val().Kind() == constant.Int {
 				cf.Int, cf.IsInt = constant.Int64Val(o.Val())
+			}
+			if o.Val().Kind() == constant.String {
+				cf.Str = constant.StringVal(o.Val())
 			}
 			pf.Consts = append(pf.Consts, cf)
 		}
